@@ -1,10 +1,15 @@
 (* MODELS: err *)
 (* Driver for the C11 decision functions.  One case per input line:
      d <null 0|1> <type> <rows> <cols> <freqs> <fz0 0|1> <func> <a1> <a2> <a3> <a4>
-        -> "<ret> <errno> <callbacks> <type>,<rows>,<cols>,<freqs>,<fz0>"   (summary after the call)
+        -> "<ret> <errno> <callbacks> <type>,<rows>,<cols>,<freqs>,<fz0> <writes>"
+           (summary after the call and number of write events made: a run of the ordered body, data_step,
+            with the rest of the object a counter of the writes; "fault - 0 ..." = NULL handle dereferenced)
      q <slots: comma separated name ids, '-' = free, "empty" = no slots> <func> <a1>
-        func: get_null|get_m1|get_huge|find|delete|prop_m1|prop_null|add
+        func: get_name|get_type|...|get_z0|find|delete|prop_type|prop_keys|...|add
         -> "<ret> <errno> <callbacks> <slots after> [<index>]"
+     v <set|subtree> <descriptor>;<descriptor>;...     vnaproperty_vset / _vset_subtree applied in turn to a NULL root
+        descriptor = <parse ok 0|1>,<path k.k.k or ->,<tail assignable 0|1>,<token: =<int> | # | eof | other>
+        -> "<outcome of the last call> <tree after>"   tree = ~ | s<int> | {k:tree,...}
      na <type> <rows> <cols> <freqs>                                  vnacal_new_alloc
      nf <freqs> <fv: null | q,q,..>  (q = p/d or nan)                 vnacal_new_set_frequency_vector
      nx <pv|et|pt> <q>   |  nx it <int>                               scalar setters
@@ -12,7 +17,8 @@
      nd <type> <rows> <cols> <b_null> <a_rows> <a_cols> <b_rows> <b_cols> <s_rows> <s_cols> <map: null | p,p,..>
         <cells: h,h,..> <a singular 0|1>                              _vnacal_new_add_common (handles 0..5 valid)
      ns <fvalid> <kernel: - | MATH>                                   vnacal_new_solve
-     pp <null 0|1> <mv n fv gnull | mu h | mc h n fv sigma | dl h | gv h q>
+     nn <fv|z0|add|me|pv|et|pt|it|solve>                              the same functions with a NULL vnacal_new_t pointer
+     pp <null 0|1> <ms | mv n fv gnull | mu h | mc h n fv sigma | dl h | gv h q>
         parameter family on the table [predefined x 3; scalar; vector 3 points 1..3; unknown; deleted]
      cv <null 0|1> <type> <rows> <cols> <out null 0|1> <newtype>      vnadata_convert
      g          -> the five generated flags this executable was extracted with (z0 port tests, add_common order)
@@ -46,6 +52,29 @@ let fval_s = function VM1 -> "m1" | VNULL -> "null" | VHUGE -> "huge"
 let outcome_s = function
   | Pass -> "pass - 0"
   | Refuse (v, r) -> Printf.sprintf "%s %s %d" (fval_s v) (errno_s (actual_errno r)) (int_of_nat (callbacks r))
+  | Fault -> "fault - 0"
+let rec nat_of_int n = if n <= 0 then O else S (nat_of_int (n - 1))
+let rec tree_s = function
+  | PNull -> "~"
+  | PScalar v -> "s" ^ iz v
+  | PMap es -> "{" ^ String.concat "," (List.map (fun (k, t) -> iz k ^ ":" ^ tree_s t) es) ^ "}"
+let pdesc_of (x : string) : pdesc =
+  match String.split_on_char ',' x with
+  | [ok; path; asg; tok] ->
+    { pd_parse_ok = (ok = "1");
+      pd_path = (if path = "-" then [] else List.map zi (String.split_on_char '.' path));
+      pd_tail_assignable = (asg = "1");
+      pd_token = (if tok = "#" then TkHash else if tok = "eof" then TkEof else if tok = "other" then TkOther
+                  else TkAssign (zi (String.sub tok 1 (String.length tok - 1)))) }
+  | _ -> failwith ("bad descriptor " ^ x)
+let getter_of = function
+  | "get_name" -> GName | "get_type" -> GType | "get_rows" -> GRows | "get_columns" -> GColumns
+  | "get_frequencies" -> GFrequencies | "get_fmin" -> GFmin | "get_fmax" -> GFmax
+  | "get_frequency_vector" -> GFrequencyVector | "get_z0" -> GZ0 | f -> failwith ("unknown getter " ^ f)
+let propfn_of = function
+  | "prop_type" -> PfType | "prop_count" -> PfCount | "prop_keys" -> PfKeys | "prop_get" -> PfGet | "prop_set" -> PfSet
+  | "prop_delete" -> PfDelete | "prop_get_subtree" -> PfGetSubtree | "prop_set_subtree" -> PfSetSubtree
+  | f -> failwith ("unknown property function " ^ f)
 let dcall f a1 a2 a3 a4 =
   match f with
   | "init" -> CInit (a1, a2, a3, a4) | "resize" -> CResize (a1, a2, a3, a4) | "set_type" -> CSetType a1
@@ -86,12 +115,15 @@ let () =
         | "d" ->
           let s = { d_type = zi t.(2); d_rows = zi t.(3); d_cols = zi t.(4); d_freqs = zi t.(5); d_fz0 = (t.(6) = "1") } in
           let c = dcall t.(7) (zi t.(8)) (zi t.(9)) (zi t.(10)) (zi t.(11)) in
-          let h = if t.(1) = "1" then None else Some s in
-          let o = check_data h c in
-          let after = (match o with Pass -> sum_after s c | _ -> sum_refused s c) in
-          Printf.printf "%s %s\n" (outcome_s o) (sum_s after)
+          if t.(1) = "1" then Printf.printf "%s %s 0\n" (outcome_s (check_data None c)) (sum_s s)
+          else begin
+            (* the ordered body: the rest of the object counts the write events *)
+            let (o', oc) = data_step (fun _ _ o -> S o.o_rest) { o_sum = s; o_rest = O } c in
+            Printf.printf "%s %s %d\n" (outcome_s oc) (sum_s o'.o_sum) (int_of_nat o'.o_rest)
+          end
         | "q" ->
-          let sl = slots_of t.(1) in
+          let nullh = (t.(1) = "null") in
+          let sl = if nullh then [] else slots_of t.(1) in
           let a1 = zi t.(3) in
           (match t.(2) with
            | "add" ->
@@ -99,11 +131,10 @@ let () =
              Printf.printf "pass - 0 %s %s\n" (slots_s sl') (iz k)
            | f ->
              let c = (match f with
-                 | "get_null" -> QGet (VNULL, a1) | "get_m1" -> QGet (VM1, a1) | "get_huge" -> QGet (VHUGE, a1)
                  | "find" -> QFind a1 | "delete" -> QDelete a1
-                 | "prop_m1" -> QProperty (VM1, a1) | "prop_null" -> QProperty (VNULL, a1)
-                 | _ -> failwith ("unknown query " ^ f)) in
-             let (sl', o) = query_step sl c in
+                 | _ when String.length f > 4 && String.sub f 0 4 = "get_" -> QGet (getter_of f, a1)
+                 | _ -> QProperty (propfn_of f, a1)) in
+             let (sl', o) = (if nullh then (sl, check_query None c) else query_step (fun x -> x) sl c) in
              let idx = (match c, o with QFind n, Pass -> (match find_slot sl n with Some k -> " " ^ iz k | None -> "") | _ -> "") in
              Printf.printf "%s %s%s\n" (outcome_s o) (slots_s sl') idx)
         | "r" ->
@@ -111,7 +142,15 @@ let () =
           let valid h = let v = z_of_coqz h in ZZ.sign v >= 0 && ZZ.leq v (ZZ.of_int 5) in
           let unknown h = ZZ.equal (z_of_coqz h) (ZZ.of_int 5) in
           let s0 = { n_registered = ints t.(1); n_unknowns = zi t.(2); n_measurements = Z0 } in
-          let (s1, o) = add_standard_current valid unknown s0 (ints t.(3)) in
+          (* through the step of the whole vnacal_new_t (T8 2x2, frequency vector given): argument checks of
+             _vnacal_new_add_common, then the registration in the order found in the C text *)
+          let o0 = { no_sum = { v_type = Z0; v_rows = zi "2"; v_cols = zi "2"; v_freqs = zi "3"; v_fvalid = true;
+                                v_merror = false; v_params = s0 }; no_rest = () } in
+          let a = { aa_b_null = false; aa_a = None; aa_b_rows = zi "2"; aa_b_cols = zi "2"; aa_s_rows = zi "2";
+                    aa_s_cols = zi "2"; aa_map = Some [zi "1"; zi "2"]; aa_cells = ints t.(3); aa_a_singular = false;
+                    aa_s_incomplete = false } in
+          let (o1, o) = new_step valid unknown (fun x _ -> x) (fun x -> x) o0 (NAdd a) in
+          let s1 = o1.no_sum.v_params in
           Printf.printf "%s %d %s %s\n" (outcome_s o) (List.length s1.n_registered) (iz s1.n_unknowns) (iz s1.n_measurements)
         | "na" -> Printf.printf "%s\n" (outcome_s (check_new_alloc (zi t.(1)) (zi t.(2)) (zi t.(3)) (zi t.(4))))
         | "nf" ->
@@ -138,6 +177,16 @@ let () =
         | "ns" ->
           let s = nsum Z0 (zi "2") (zi "2") (zi "3") (t.(1) = "1") false in
           Printf.printf "%s\n" (outcome_s (check_new valid05 (Some s) (NSolve (if t.(2) = "MATH" then Some MATH else None))))
+        | "nn" ->
+          (* NULL vnacal_new_t pointer *)
+          let a0 = { aa_b_null = false; aa_a = None; aa_b_rows = zi "2"; aa_b_cols = zi "2"; aa_s_rows = zi "2"; aa_s_cols = zi "2";
+                     aa_map = None; aa_cells = []; aa_a_singular = false; aa_s_incomplete = false } in
+          let c = (match t.(1) with
+              | "fv" -> NSetFv (None, false) | "z0" -> NSetZ0 | "add" -> NAdd a0
+              | "me" -> NSetMError (gen_f_extrapolation, qi 1, qi 3, zi "1", None, None, None, false)
+              | "pv" -> NSetPvalue None | "et" -> NSetEtTol None | "pt" -> NSetPTol None | "it" -> NSetIter (zi "1")
+              | _ -> NSolve None) in
+          Printf.printf "%s\n" (outcome_s (check_new valid05 None c))
         | "pp" ->
           let h = if t.(1) = "1" then None else Some ptab in
           let c = (match t.(2) with
@@ -151,11 +200,16 @@ let () =
         | "cv" ->
           let s = { d_type = zi t.(2); d_rows = zi t.(3); d_cols = zi t.(4); d_freqs = zi "1"; d_fz0 = false } in
           Printf.printf "%s\n" (outcome_s (check_convert (if t.(1) = "1" then None else Some s) (t.(5) = "1") (zi t.(6))))
+        | "v" ->
+          let ds = List.map pdesc_of (String.split_on_char ';' t.(2)) in
+          let f = (if t.(1) = "set" then vset else vset_subtree) in
+          let (tr, oc) = List.fold_left (fun (tr, _) d -> f tr d) (PNull, Pass) ds in
+          Printf.printf "%s %s\n" (outcome_s oc) (tree_s tr)
         | "g" ->
           (* the facts taken from the C text that are baked into this executable *)
           let b x = if x then "1" else "0" in
-          Printf.printf "%s%s%s%s%s\n" (b gen_get_z0_strict) (b gen_set_z0_strict) (b gen_get_fz0_strict)
-            (b gen_set_fz0_strict) (b gen_add_common_prevalidates)
+          Printf.printf "%s%s%s%s%s-%s\n" (b gen_get_z0_strict) (b gen_set_z0_strict) (b gen_get_fz0_strict)
+            (b gen_set_fz0_strict) (b gen_add_common_prevalidates) (iz gen_orders_digest)
         | "e" -> Printf.printf "%s\n" (errno_s (gen_errno_of_code (zi t.(1))))
         | _ -> failwith "unknown line"
       end
